@@ -40,7 +40,13 @@ class Mean:
 def _cmp(x, other, op):
     if isinstance(other, Mean):
         x, other = x * other.n, other.total
-    return {'gt': x > other, 'ge': x >= other, 'lt': x < other, 'le': x <= other}[op]
+    if op == 'gt':
+        return x > other
+    if op == 'ge':
+        return x >= other
+    if op == 'lt':
+        return x < other
+    return x <= other
 
 
 class Arr(list):
